@@ -110,7 +110,12 @@ func realiseL2(h []genEv, r *rand.Rand, dict int64) (*ref.L2Enc, error) {
 				if r.Intn(3) == 0 {
 					b = byte(r.Intn(3))
 				}
-				cur.Ops = append(cur.Ops, ref.Op{K: ref.OpLit, B: b})
+				// a quarter of the literals are (nearly) the byte at the latest match distance
+				near := 0
+				if r.Intn(4) == 0 {
+					near = 1 + r.Intn(4)
+				}
+				cur.Ops = append(cur.Ops, ref.Op{K: ref.OpLit, B: b, Near: near})
 			case "M":
 				cur.Ops = append(cur.Ops, ref.Op{K: ref.OpMatch, Dist: int64(e.D), Len: e.N})
 			case "R":
